@@ -331,6 +331,23 @@ func propEncoded(t *rapid.T) {
 		}
 		ev.Class("encoded:miss")
 	}
+	// "matching uses the decoded URL path, or the escaped path": the URL's path as it is when the router gets the request.
+	// A request that arrived for /pre<raw> (its RequestURI says so) and was handed on by http.StripPrefix carries the
+	// rest in its URL: the router answers exactly as for <raw>.
+	pre, err := http.NewRequest("GET", "http://example.com/pre"+raw, nil)
+	if err != nil {
+		return
+	}
+	pre.RequestURI = "/pre" + raw
+	rec := httptest.NewRecorder()
+	if pv := try(func() { http.StripPrefix("/pre", r).ServeHTTP(rec, pre) }); pv != nil {
+		t.Fatalf("behind StripPrefix: panic %v", pv)
+	}
+	ev.Eval()
+	if rec.Code != code || rec.Body.String() != body {
+		t.Fatalf("UseEncodedPath=%v routes %v: raw %q answers %d %q, the same request behind http.StripPrefix(\"/pre\") answers %d %q", encoded, registered, raw, code, body, rec.Code, rec.Body.String())
+	}
+	ev.Class("encoded:same-answer-behind-StripPrefix")
 }
 
 func TestPropEncoded(t *testing.T) { rapid.Check(t, propEncoded) }
